@@ -706,3 +706,16 @@ Definition rounds_needed (l : list action) : nat :=
   2 + 2 * length (filter (fun a => match a with AWrite _ _ _ => true | _ => false end) l).
 
 Definition not_remove (a : action) : bool := match a with ARemove _ => false | _ => true end.
+
+(* stage-1 class of schedules for the liveness theorems: no removal from the history cache, the reader and
+   its participant are not deleted, every written sample fits one DATA submessage *)
+Definition live_act (cf : cfg) (a : action) : bool :=
+  match a with
+  | ARemove _ | ADelReader | ADelPart => false
+  | AWrite _ len _ => (0 <=? len) && (len <=? fsz cf)
+  | _ => true
+  end.
+(* loss-free delivery: individual datagrams in any order, FIFO pumps *)
+Definition is_delivery (a : action) : bool := match a with ADeliver _ | APump => true | _ => false end.
+(* one heartbeat period and a bit *)
+Definition five_ticks : list action := [ATick; ATick; ATick; ATick; ATick].
